@@ -5,7 +5,8 @@ _phi_to_delta_rph, single and stacked forms) -> Gen/NumbaIntegrate.v, Gen/Transf
 Gen/C17Gen.v; theorems in Props/C17.v against the closed-form exponential map and the
 as_euler spec of Spec/LibSpecs.v.  Numerical statement checks on the implementation
 (closed form / scipy Rotation / expm comparison, Euler round trips, conventions, stacked
-vs single, finite differences of the Euler angles under a platform rotation) run as
+vs single, finite differences of the Euler angles under a platform rotation, also through the
+attitude block of InsErrorModel.transform_to_output on relabelled / reordered inputs) run as
 support and as the falsifier; margins are >= 100x above rounding.
 """
 import math
@@ -17,7 +18,10 @@ RULE = ("translator: every traced function is validated on 60 random inputs per 
         "[1e-12, pi] plus a dense cluster around the branch threshold |v| = 1e-3 plus |v| = pi - 10^-k (k=1..12), "
         "exactly pi and just above pi in 7 directions (compiled function and "
         ".py_func), Euler triples with roll/heading in [-360, 360] incl. +-180/+-360 and |pitch| up to "
-        "89.9, random small rotations phi for the Jacobian; a case is distinct by its rounded input")
+        "89.9, random small rotations phi for the Jacobian; InsErrorModel(with_altitude in {True, False})."
+        "transform_to_output on Pva Series / Trajectory DataFrames with 8 column layouts (attitude before velocity, "
+        "heading-pitch-roll order, reversed, shuffled, extra columns), roll/heading in [-360, 360], |pitch| <= 85; "
+        "a case is distinct by its rounded input")
 
 EPS = 2.220446049250313e-16
 TOL = 100 * EPS            # 100x unit roundoff, scaled by the magnitude of what is compared
@@ -155,6 +159,63 @@ def check_stacked(rphs):
     return None
 
 
+def fd_euler_rate(rph, phi, eps=1e-5):
+    """d/d eps mat_to_rph(Rot(-eps phi) mat_from_rph(rph)) at 0 by central differences (degrees per unit eps)"""
+    from pyins import transform
+    from scipy.spatial.transform import Rotation
+    c = transform.mat_from_rph(np.array(rph, dtype=float))
+    phi = np.array(phi, dtype=float)
+    plus = transform.mat_to_rph(Rotation.from_rotvec(-eps * phi).as_matrix() @ c)
+    minus = transform.mat_to_rph(Rotation.from_rotvec(eps * phi).as_matrix() @ c)
+    return np.array([((plus[k] - minus[k] + 180) % 360 - 180) / (2 * eps) for k in range(3)])
+
+
+CANON = ['lat', 'lon', 'alt', 'VN', 'VE', 'VD', 'roll', 'pitch', 'heading']
+
+
+def _container(rows, order, stacked):
+    import pandas as pd
+    if stacked:
+        return pd.DataFrame({c: [float(r[c]) for r in rows] for c in order},
+                            index=pd.Index([0.5 * i for i in range(len(rows))], name='time'))
+    return pd.Series({c: float(rows[0][c]) for c in order})
+
+
+def check_output(with_altitude, stacked, order, rows, phi):
+    """attitude block of InsErrorModel.transform_to_output on a Pva Series / Trajectory DataFrame whose labelled
+    columns are in the given order (possibly with extra columns): must equal the block obtained from the
+    canonical layout and be the derivative of the Euler angles of Rot(-phi) C(rph) with respect to phi."""
+    from pyins import error_model
+    em = error_model.InsErrorModel(with_altitude=with_altitude)
+    pcols = [6, 7, 8] if with_altitude else [4, 5, 6]
+    got = np.asarray(em.transform_to_output(_container(rows, order, stacked)), dtype=float)
+    ref = np.asarray(em.transform_to_output(_container(rows, CANON, stacked)), dtype=float)
+    ns = 9 if with_altitude else 7
+    want_shape = (len(rows), 9, ns) if stacked else (9, ns)
+    if got.shape != want_shape:
+        return f"transform_to_output has shape {got.shape}, expected {want_shape}"
+    if not stacked:
+        got, ref = got[None], ref[None]
+    phi = np.array(phi, dtype=float)
+    for i, row in enumerate(rows):
+        blk = got[i][6:9][:, pcols]
+        rblk = ref[i][6:9][:, pcols]
+        if not np.isfinite(blk).all() or np.abs(blk - rblk).max() > 4 * EPS * max(1.0, np.abs(rblk).max()):
+            return (f"attitude block of transform_to_output depends on the column ORDER of the labelled input "
+                    f"(row {i}): with columns {order} it is {blk.tolist()}, with the canonical layout {rblk.tolist()}")
+        rest = np.delete(got[i][6:9], pcols, axis=1)
+        if np.abs(rest).max() != 0:
+            return f"attitude rows of transform_to_output have non-zero entries outside the phi columns (row {i})"
+        rph = [row['roll'], row['pitch'], row['heading']]
+        d = blk @ phi
+        fd = fd_euler_rate(rph, phi)
+        cp = math.cos(math.radians(row['pitch']))
+        if np.abs(fd - d).max() > 1e-6 * (1 + np.abs(fd).max()) / cp ** 2:
+            return (f"attitude block of transform_to_output times phi = {d.tolist()} but the Euler angles of "
+                    f"Rot(-eps phi) C(rph) change at the rate {fd.tolist()} (row {i}, rph = {rph})")
+    return None
+
+
 def check_jacobian(rph, phi):
     """_phi_to_delta_rph(rph) phi  vs  d/d eps mat_to_rph(Rot(-eps phi) C(rph)) at 0 (central differences),
     and the matrix identity  sum_k dC/d angle_k (T phi)_k = -[phi x] C."""
@@ -166,10 +227,7 @@ def check_jacobian(rph, phi):
     t = error_model._phi_to_delta_rph(rph)
     d = t @ phi
     cp = math.cos(math.radians(rph[1]))
-    eps = 1e-5
-    plus = transform.mat_to_rph(Rotation.from_rotvec(-eps * phi).as_matrix() @ c)
-    minus = transform.mat_to_rph(Rotation.from_rotvec(eps * phi).as_matrix() @ c)
-    fd = np.array([((plus[k] - minus[k] + 180) % 360 - 180) / (2 * eps) for k in range(3)])
+    fd = fd_euler_rate(rph, phi)
     tol = 1e-6 * (1 + np.abs(d).max()) / cp ** 2
     if np.abs(fd - d).max() > tol:
         return (f"_phi_to_delta_rph(rph) phi = {list(map(float, d))} but the Euler angles of Rot(-eps phi) C "
@@ -190,7 +248,8 @@ def check_jacobian(rph, phi):
 CHECKS = dict(rotvec=lambda o: check_rotvec(o['v'], o['py']),
               rph=lambda o: check_rph(o['rph']),
               stacked=lambda o: check_stacked(o['rphs']),
-              jacobian=lambda o: check_jacobian(o['rph'], o['phi']))
+              jacobian=lambda o: check_jacobian(o['rph'], o['phi']),
+              output=lambda o: check_output(o['with_altitude'], o['stacked'], o['order'], o['rows'], o['phi']))
 
 
 # --------------------------------------------------------------------------------------------
@@ -245,6 +304,27 @@ def _rphs(rng, n):
     return out
 
 
+def _layouts(rng):
+    """column orders of a labelled Pva / Trajectory: permutations of the nine columns, optionally with extras"""
+    att_first = ['lat', 'lon', 'alt', 'roll', 'pitch', 'heading', 'VN', 'VE', 'VD']
+    hpr = ['lat', 'lon', 'alt', 'VN', 'VE', 'VD', 'heading', 'pitch', 'roll']
+    rev = list(reversed(CANON))
+    sh = list(CANON)
+    rng.shuffle(sh)
+    sh2 = list(CANON) + ['extra']
+    rng.shuffle(sh2)
+    return [att_first, hpr, rev, sh, ['extra'] + att_first, sh2, CANON + ['extra'], ['extra'] + CANON]
+
+
+def _pva_row(rng):
+    return dict(lat=rng.uniform(-80, 80), lon=rng.uniform(-180, 180), alt=rng.uniform(-100, 5000),
+                VN=rng.uniform(-50, 50), VE=rng.uniform(-50, 50), VD=rng.uniform(-5, 5),
+                roll=rng.choice([rng.uniform(-360, 360), rng.uniform(-180, 180)]),
+                pitch=rng.choice([rng.uniform(-85, 85), rng.uniform(-60, 60), 85.0, -85.0]),
+                heading=rng.choice([rng.uniform(-360, 360), rng.uniform(-180, 180), 360.0, -360.0]),
+                extra=rng.uniform(-1000, 1000))
+
+
 def numeric_statements(r, n):
     """Check the property's own statements on the implementation.  Returns [(what, replay)]."""
     rng = random.Random(r.seed + 17)
@@ -278,6 +358,16 @@ def numeric_statements(r, n):
         phi = [rng.uniform(-1, 1) for _ in range(3)]
         dist['jacobian'] += 1
         run('jacobian', dict(rph=list(rph), phi=phi), tuple(round(t, 9) for t in rph))
+    reps = max(1, n // 150)
+    for rep_i in range(reps):
+        for li, order in enumerate(_layouts(rng)):
+            for with_altitude in (True, False):
+                for stacked in (False, True):
+                    rows = [_pva_row(rng) for _ in range(3 if stacked else 1)]
+                    phi = [rng.uniform(-1, 1) for _ in range(3)]
+                    dist['output'] = dist.get('output', 0) + 1
+                    run('output', dict(with_altitude=with_altitude, stacked=stacked, order=list(order),
+                                       rows=rows, phi=phi), (rep_i, li, with_altitude, stacked))
     r.coverage.setdefault('distribution', {}).update(dist)
     return fails
 
